@@ -159,7 +159,11 @@ func (u *Unit) intrinsic(fr *Frame, st *State, fn *ssa.Function, args []Val, whe
 		res := u.freshResults(sig, "time", st.pc)
 		u.event(fr, st, "ret time.Now", map[string]Val{"result": res}, where)
 		return res
-	case "time.Since", "time.Until", "(time.Time).IsZero", "(time.Duration).Seconds":
+	case "time.Until":
+		res := u.freshResults(sig, "time", st.pc)
+		u.event(fr, st, "ret time.Until", map[string]Val{"t": args[0], "result": res}, where)
+		return res
+	case "time.Since", "(time.Time).IsZero", "(time.Duration).Seconds":
 		return u.freshResults(sig, "time", st.pc)
 	case "time.Sleep":
 		u.event(fr, st, "call time.Sleep", map[string]Val{"d": args[0]}, where)
@@ -650,6 +654,12 @@ func (u *Unit) jsonUnmarshal(fr *Frame, st *State, data Val, target Val, sig *ty
 		if _, isMap := p.Elem.Underlying().(*types.Map); isMap {
 			ok := App(SBool, "ParseMapOK", b)
 			mp := App(SInt, "ParseMap", b)
+			// encoding/json keeps the entries of a non-nil target map: only a nil map or one made empty in this
+			// activation ends up holding exactly the decoded members
+			if cur, isS := u.loadPtr(fr, st, p, where).(*Scalar); !isS || !(cur.Origin == "map" || cur.T.S == "0") {
+				u.unmodelled["json.Unmarshal(into a map that may hold entries)"]++
+				mp = u.fresh(SInt, "merged_map")
+			}
 			u.storePtr(fr, st, p, &Scalar{T: u.define(Ite(ok, mp, u.fresh(SInt, "partial_map")), "pmap"), Typ: p.Elem, Origin: "map"}, where)
 			res := &Scalar{T: Ite(ok, TZero, errv), Typ: et}
 			u.event(fr, st, "call json.Unmarshal", map[string]Val{"data": data, "result": res}, where)
@@ -736,7 +746,13 @@ func (u *Unit) intrinsicInvoke(fr *Frame, st *State, full string, recv Val, args
 		res := &Scalar{T: e, Typ: sig.Results().At(0).Type(), Origin: "ctxerr", Aux: recv}
 		u.event(fr, st, "ret Context.Err", map[string]Val{"ctx": recv, "result": res}, where)
 		return res, true
-	case "context.Context.Value", "context.Context.Deadline":
+	case "context.Context.Deadline":
+		res := u.freshResults(sig, "ctxdl", st.pc)
+		if tv, ok := res.(*TupleV); ok && len(tv.Vs) == 2 {
+			u.event(fr, st, "ret Context.Deadline", map[string]Val{"ctx": recv, "result0": tv.Vs[0], "result1": tv.Vs[1]}, where)
+		}
+		return res, true
+	case "context.Context.Value":
 		return u.freshResults(sig, "ctxv", st.pc), true
 	case "error.Error":
 		return &Scalar{T: App(SInt, "ErrMsg", rt), Typ: types.Typ[types.String]}, true
